@@ -1,5 +1,6 @@
 import XixiKV.Proofs.DatatypeEngineCmds
 import XixiKV.Properties.C19
+import XixiKV.Properties.C01History
 /-!
 # C19 ON THE ENGINE — the redis-style layer, run on the engine model, refines the abstract redis types
 # (C19 ∘ C01 / C02 / C05 / C06: one theorem for the whole stack)
@@ -44,6 +45,8 @@ calls, batch sessions, `Merge`s and restarts.  This file composes the two.
 * `C19_restart_engine` — after any prefix `h₁` and any gap `g` of restarts and merges (e.g. one restart; or
   merge, adopting restart under another configuration, another restart) the replies of `h₂` are those of the
   specification continuing from the state after `h₁`: the whole abstract state is unchanged.
+* `engineBatch_trace`, `batchTrace_wf`, `enginePut_trace`, `engineDelete_trace`, `engineGet_trace` — every
+  operation of `engineStore` is a call, or a well-formed batch session, of the histories of `C01History`.
 * `demo_refines_engine`, `#guard`s — non-vacuity: an executed history on a 160-byte file-size limit.
 
 ## Side conditions (all explicit)
@@ -459,6 +462,55 @@ theorem C19_restart_engine {U M : List ByteArray} (hU : PrefixFree U) (hM : ZNoC
     (fun o ho => heok o (by simp only [List.mem_append] at ho ⊢; exact Or.inr ho)) hr₂
   rw [h2.replies]
   exact (specRunE_eq h₂ _).2
+
+/-! ## the engine calls of the layer are histories in the sense of `C01History`
+
+Every operation of `engineStore` is a call — or, for a batch, a well-formed batch session — of the histories
+`C01H.HOp` about which `C01_refines_history` speaks: the whole stack adds no new way of driving the engine. -/
+
+/-- the calls of one batch: `NewBatch`, one `Put` / `Delete` per staged operation, `Commit`, the object dropped -/
+def batchTrace (bid : Nat) (ops : List KV.Op) : List C01H.HOp :=
+  .a (.bnew false bid) ::
+    (ops.map (fun op => match op with
+      | .put k v => C01H.HOp.a (.bput k v)
+      | .del k => C01H.HOp.a (.bdel k)) ++ [.a .bcommit, .a .bdrop])
+
+theorem hrun_stage (dir : String) (rest : List C01H.HOp) : ∀ (ops : List KV.Op) (s : St),
+    (C01H.hrun dir s (ops.map (fun op => match op with
+      | .put k v => C01H.HOp.a (.bput k v)
+      | .del k => C01H.HOp.a (.bdel k)) ++ rest)).1 = (C01H.hrun dir (ops.foldl stageOp s) rest).1 := by
+  intro ops
+  induction ops with
+  | nil => intro s; rfl
+  | cons op ops ih =>
+    intro s
+    cases op with
+    | put k v => exact ih (stageOp s (.put k v))
+    | del k => exact ih (stageOp s (.del k))
+
+/-- `engineBatch` IS the run of a batch session of `C01History` … -/
+theorem engineBatch_trace (dir : String) (bid : Nat) (s : St) (ops : List KV.Op) :
+    (engineBatch bid s ops).1 = (C01H.hrun dir s (batchTrace bid ops)).1 := by
+  show _ = (C01H.hrun dir (bnew s false bid).1 _).1
+  rw [hrun_stage]
+  rfl
+
+/-- … which is well-formed (only the batch's own calls between `NewBatch` and `Commit`) and leaves no live batch -/
+theorem batchTrace_wf (bid : Nat) : ∀ (ops : List KV.Op), C01H.WF false (batchTrace bid ops) = true := by
+  intro ops
+  show C01H.WF true _ = true
+  induction ops with
+  | nil => rfl
+  | cons op ops ih => cases op <;> exact ih
+
+/-- the plain operations are single calls -/
+theorem enginePut_trace (dir : String) (bid : Nat) (s : St) (k v : ByteArray) :
+    ((engineStore bid).put s k v).1 = (C01H.hrun dir s [.a (.put k v)]).1 := rfl
+theorem engineDelete_trace (dir : String) (bid : Nat) (s : St) (k : ByteArray) :
+    ((engineStore bid).delete s k).1 = (C01H.hrun dir s [.a (.del k)]).1 := rfl
+theorem engineGet_trace (dir : String) (bid : Nat) (s : St) (k : ByteArray) :
+    (C01H.hstep dir s (.a (.get k))).2 = [(engineStore bid).get s k] ∧ (C01H.hstep dir s (.a (.get k))).1 = s :=
+  ⟨rfl, PolicyP.get_state s k⟩
 
 /-! ## Non-vacuity: an executed history of the whole stack
 
